@@ -9,6 +9,7 @@ from scipy import integrate, stats
 from ..core import check, lib, raises, Violation
 from ..lib import U
 from ..runner import Part
+from ..textoracle import run_campaign, eval_text
 
 RULE = ("Generated numeric inputs over 30 decades / rendered arrays / (v,d) pairs, each checked against numpy/scipy "
         "identities or by parsing the produced text back; distinct = sha1 of the canonical JSON case; non-trivial as "
@@ -363,6 +364,10 @@ def e_s2a_fuzz(c):
         r = U.str2array(text) if dt is None else U.str2array(text, dt)
     except ValueError:
         return {"nontrivial": True, "classes": ["rejected"]}
+    except OverflowError:
+        if re.search(r"\d{19,}", text):      # integer literal beyond 64 bits: not the text of any integer array
+            return {"nontrivial": False, "classes": ["int-literal-beyond-64-bits"]}
+        raise Violation("str2array-wrong-exception", f"{text!r} raised OverflowError") from None
     except Exception as e:  # noqa: BLE001
         raise Violation("str2array-wrong-exception", f"{text!r} raised {type(e).__name__}: {e}") from None
     check(isinstance(r, np.ndarray) and r.dtype.kind in "biufc", "str2array-bad-result", f"{text!r} -> {type(r).__name__} {getattr(r, 'dtype', '')}")
@@ -434,5 +439,7 @@ PARTS = [
     Part("str2array", e_s2a, s_s2a(), quick=1500, thorough=8000, shards=8, rule="non-trivial: 2-D, complex or explicit dtype"),
     Part("str2array_bad", e_s2a_bad, s_s2a_bad(), quick=600, thorough=3000, shards=4, rule="valid rendering + one character outside the grammar"),
     Part("str2array_fuzz", e_s2a_fuzz, s_fuzz, quick=1500, thorough=20000, shards=8, rule="arbitrary text over the grammar alphabet; validity predicate"),
+    Part("str2array_atheris", eval_text("str2array"), kind="custom", custom=lambda ctx, n: run_campaign(ctx, "str2array", n), quick=0, thorough=150000, shards=4,
+         rule="coverage-guided (atheris/libFuzzer) campaigns over bytes decoded onto the grammar alphabet, empty corpus and seeded corpus; oracle inside the target; thorough tier only"),
     Part("si", e_si, s_si(), quick=1500, thorough=8000, shards=4, rule="non-trivial: decade boundary/nextafter/int input or k!=1"),
 ]
